@@ -5,7 +5,7 @@ from pathlib import Path
 ROOT = Path(__file__).resolve().parent.parent / "seeded"
 rows = []
 for d in sorted(ROOT.glob("C??")):
-    for suf in "GH":
+    for suf in "GHI":
         m = d / f"meta{suf}.json"
         if not m.exists():
             continue
@@ -17,11 +17,20 @@ for d in sorted(ROOT.glob("C??")):
         with_input = sorted({v[0] for v in viol if not v[1]})
         res = "missed" if not viol else ("caught (failing input) by " + ", ".join(with_input) if with_input
                                          else "caught without a failing input by " + ", ".join(caught_by))
+        first = d / f"check{suf}_first.log"
+        if first.exists():   # the checks were strengthened after a miss: report the first run, then the run after the addition
+            v1 = re.findall(r"^VIOLATION property=(C\d\d)", first.read_text(), re.M)
+            res = ("missed" if not v1 else "caught") + " at first; after the addition: " + res
         conf = d / f"confirm{suf}.json"
         c = json.loads(conf.read_text()) if conf.exists() else None
         cs = "-" if c is None else ("demo %s/%s, stable tests %s/%s" % (c.get("demo_clean_rc"), c.get("demo_patched_rc"),
               (c.get("tests") or {}).get("stable_passed") if isinstance(c.get("tests"), dict) else c.get("tests"),
               (c.get("tests") or {}).get("stable") if isinstance(c.get("tests"), dict) else ""))
+        if c is not None and isinstance(c.get("tests"), dict):
+            cs += " (" + c["tests"].get("tests_scope", "whole suite") + ")"
+            lt = c.get("learn_tests")
+            if lt:
+                cs += ("; learning tests %s/%s" % (lt.get("stable_passed"), lt.get("stable"))) if lt.get("completed") else "; learning tests: run not completed"
         summ = " ".join(str(meta.get("summary", "")).split())[:230].replace("|", "/")
         rows.append(f"| {d.name}/{suf} | {summ} | {res} | {cs} |")
 print("| seed | change (from the author's meta.json) | first quick run of the checks | confirmation (demo rc clean/patched, stable tests passing with the change) |")
